@@ -14,7 +14,10 @@ namespace {
 
 struct LockedMM : public SimMemoryManager {     // the owner's manager: may be entered from reader threads
     std::mutex mu; uint64_t concurrentAllocs = 0; bool concurrentPhase = false;
-    void* allocate(XMLSize_t n) override { std::lock_guard<std::mutex> g(mu); if (concurrentPhase) ++concurrentAllocs; return SimMemoryManager::allocate(n); }
+    uint64_t failAtConcurrent = 0; int faultTask = -1;      // the k-th allocation a reader thread makes in the owner's manager is refused once
+    void* allocate(XMLSize_t n) override { std::lock_guard<std::mutex> g(mu);
+        if (concurrentPhase) { ++concurrentAllocs; if (failAtConcurrent && concurrentAllocs == failAtConcurrent) { faultTask = simsched::currentTask(); ++refused; throw xercesc::OutOfMemoryException(); } }
+        return SimMemoryManager::allocate(n); }
     void deallocate(void* p) override { std::lock_guard<std::mutex> g(mu); SimMemoryManager::deallocate(p); }
 };
 
@@ -72,23 +75,23 @@ void runTask(TaskCtx& t, Shared& sh, const Json& plan) {
     simsched::taskEnd(t.id);
 }
 
-struct PhaseOut { std::vector<std::vector<JobOut>> outs; simsched::Stats st; std::vector<simsched::RaceReport> races; uint64_t ownerAllocs = 0; std::string err; };
+struct PhaseOut { std::vector<std::vector<JobOut>> outs; simsched::Stats st; std::vector<simsched::RaceReport> races; uint64_t ownerAllocs = 0; std::string err; int faultTask = -1; };
 
-PhaseOut runPhase(const Json& plan, const simsched::Config& cfg) {
+PhaseOut runPhase(const Json& plan, const simsched::Config& cfg, uint64_t ownerFailAt = 0) {
     PhaseOut po; Shared sh;
     if (!sh.build(plan)) { po.err = sh.err; return po; }
     int n = cfg.ntasks; std::vector<std::unique_ptr<TaskCtx>> tasks;
     const Json& tj = plan.at("tasks");
     for (int i = 0; i < n; ++i) { std::unique_ptr<TaskCtx> t(new TaskCtx); t->id = i; for (auto& j : tj.a[i % tj.a.size()].a) t->jobs.push_back(j); tasks.push_back(std::move(t)); }
     simsched::takeRaces();
-    sh.mm.concurrentPhase = true;
+    sh.mm.concurrentPhase = true; sh.mm.failAtConcurrent = ownerFailAt;
     simsched::start(cfg);
     std::vector<std::thread> th;
     for (int i = 0; i < n; ++i) th.emplace_back(runTask, std::ref(*tasks[i]), std::ref(sh), std::cref(plan));
     simsched::waitAllDone();
     for (auto& t : th) t.join();
     po.st = simsched::finish();
-    sh.mm.concurrentPhase = false; po.ownerAllocs = sh.mm.concurrentAllocs;
+    sh.mm.concurrentPhase = false; po.ownerAllocs = sh.mm.concurrentAllocs; po.faultTask = sh.mm.faultTask; sh.mm.failAtConcurrent = 0;
     po.races = simsched::takeRaces();
     for (auto& t : tasks) po.outs.push_back(t->outs);
     sh.destroy();
@@ -105,7 +108,7 @@ struct C07 : public Driver {
         Json p = Json::object(); p["property"] = "C07"; p["run"] = (long long)run; p["seed"] = hex64(seed); p["tier"] = tier;
         int nd = (int)g.range(1, 2), ns = (int)g.range(1, 2);
         Json docs = Json::array(), sheets = Json::array(), res = Json::object(); std::vector<GenDoc> gd;
-        for (int i = 0; i < nd; ++i) { DocCfg dc; dc.maxNodes = (int)g.range(5, 25); dc.maxDepth = 4; dc.dtd = g.chance(1, 2); dc.ns = g.chance(2, 3); dc.manyNames = g.chance(1, 8); if (dc.manyNames) dc.maxNodes = 70; gd.push_back(genDoc(g, dc)); docs.push(gd.back().xml); }
+        for (int i = 0; i < nd; ++i) { DocCfg dc; dc.maxNodes = (int)g.range(5, 25); dc.maxDepth = 4; dc.dtd = g.chance(1, 2); dc.ns = g.chance(2, 3); dc.manyNames = g.chance(1, 8); if (dc.manyNames) dc.maxNodes = 70; dc.deep = g.chance(1, 8); dc.deepLevels = 104; if (dc.deep) dc.maxNodes = 8; gd.push_back(genDoc(g, dc)); docs.push(gd.back().xml); }
         // facilities with lazily initialised state, forced in rotation
         static const std::vector<std::string> lazy = { "key", "keyids", "num-single", "num-multi", "num-any", "num-nocount", "id", "docfn", "fmtnum-df", "sort2", "attrset", "calltmpl", "modes", "exslt-set", "nodeset", "fmtnum", "rtf", "lang", "genid", "number-value" };
         auto allowed = featuresExcept({ "message", "doe" });
@@ -121,6 +124,9 @@ struct C07 : public Driver {
         // every shared object is used by at least two tasks with identical inputs: tasks come in twins
         Json tasks = Json::array();
         for (int i = 0; i < (nt + 1) / 2; ++i) { Json jobs = Json::array(); int nj = (int)gs.range(1, 2); for (int k = 0; k < nj; ++k) { Json j = Json::object(); j["doc"] = (int)gs.below(nd); j["sheet"] = (int)gs.below(ns); j["wrapper"] = gs.chance(1, 3); jobs.push(j); } tasks.push(jobs); tasks.push(jobs); }
+        // one refused allocation in the shared objects' manager during the concurrent phase (fully built wrappers only: a lazily built one
+        // that could not allocate a node is an inconsistent tree, and walking it further proves nothing)
+        if (gs.chance(1, 4) && run % 3 != 1) p["ownerFailAt"] = (long long)(1 + gs.below(8));
         p["tasks"] = tasks; p["wrapper_lazy"] = run % 3 == 1;     // the Xerces wrapper created with (threadSafe, !buildWrapper): documented as thread-safe too
         Json sc = Json::object(); unsigned k = (unsigned)gs.below(10);
         if (k == 0) sc["strategy"] = "sequential";
@@ -147,7 +153,8 @@ struct C07 : public Driver {
         else if (strat == "sequential") cfg.strategy = simsched::Sequential;
         else if (strat == "random") { cfg.strategy = simsched::RandomWalk; cfg.switchDen = (unsigned)sc.num("den", 256); }
         else { cfg.strategy = simsched::PCT; Rng r(cfg.seed); int d = (int)sc.num("d", 2); for (int i = 0; i < nt; ++i) cfg.priorities.push_back(i); for (int i = nt - 1; i > 0; --i) std::swap(cfg.priorities[i], cfg.priorities[r.below(i + 1)]); for (int i = 0; i < d - 1; ++i) cfg.changePoints.push_back(1 + r.below(std::max<uint64_t>(1, b.st.steps))); std::sort(cfg.changePoints.begin(), cfg.changePoints.end()); }
-        PhaseOut c = runPhase(plan, cfg);
+        PhaseOut c = runPhase(plan, cfg, (uint64_t)plan.num("ownerFailAt", 0));
+        if (c.faultTask >= 0) res.count("fault:shared-manager-allocation-refused");
         if (!c.err.empty()) { res.harness("shared objects could be built for the baseline but not for the concurrent phase: " + c.err); return; }
         // ---- oracles
         Json sched = Json::array(); for (auto& h : c.st.handovers) { Json e = Json::array(); e.push((long long)h.first); e.push(h.second); sched.push(e); }
@@ -167,10 +174,15 @@ struct C07 : public Driver {
         for (auto& r : b.races) res.violate("race", r.sig, r.detail + " (first met in the sequential baseline phase)");
         for (int i = 0; i < nt && i < (int)c.outs.size(); ++i) for (size_t j = 0; j < c.outs[i].size() && j < b.outs[i].size(); ++j) {
             const JobOut& x = c.outs[i][j]; const JobOut& y = b.outs[i][j];
+            // A refused allocation in the shared object's manager.  The documented recovery model asks nothing more of objects on a manager that
+            // has refused an allocation, and the other threads cannot stop in mid-transformation: what they compute afterwards is not judged.
+            // What is judged in such a run: no thread may be left waiting for ever (a mutex still owned by a finished task ends the run with the
+            // deadlock class, sched.cpp), no sanitizer error, no data race.
+            if (c.faultTask >= 0) { if (x.status != y.status || x.threw != y.threw || x.bytes != y.bytes) res.count("probe:jobs-differing-after-shared-allocation-fault"); continue; }
             if (x.status != y.status || x.threw != y.threw) res.violateSub("status-differs", "task", "task " + std::to_string(i) + " job " + std::to_string(j) + ": status " + std::to_string(x.status) + (x.threw ? " " + x.exc : "") + " [" + x.err.substr(0, 200) + "] vs sequential " + std::to_string(y.status), sub);
             else if (x.bytes != y.bytes) { std::string d; std::string f = firstObsDiff(y.bytes, x.bytes, &d); res.violateSub("output-differs", f, "task " + std::to_string(i) + " job " + std::to_string(j) + " sequential vs concurrent: " + d, sub); }
         }
-        if (c.st.budgetExceeded) res.violate("step-budget", "exceeded", "scheduler step budget exceeded");
+        if (c.st.budgetExceeded) { if (c.faultTask >= 0) res.count("probe:step-budget-exceeded-after-shared-allocation-fault"); else res.violate("step-budget", "exceeded", "scheduler step budget exceeded"); }
         std::string oh; for (auto& t : c.outs) for (auto& o : t) oh += hex64(fnvStr(o.bytes)) + ":" + std::to_string(o.status) + ",";
         tr.ev("base steps=" + std::to_string(b.st.steps) + " conc steps=" + std::to_string(c.st.steps) + " switches=" + std::to_string(c.st.switches) + " sched=" + hex64(c.st.scheduleHash) + " outs=" + oh + " races=" + std::to_string(c.races.size()));
     }
